@@ -13,6 +13,7 @@ package main
 //     operation must produce when it succeeds; an error must leave resource and value untouched.
 
 import (
+	"encoding/json"
 	apb "github.com/google/fhir/go/proto/google/fhir/proto/annotations_go_proto"
 	"regexp"
 	"sync"
@@ -428,6 +429,7 @@ type patchOp struct {
 
 func runC18(c *Ctx) {
 	c.meta.Rule = "generated resources (quick: 24 types, thorough: all 146) x element paths of their JSON tree (scalar, repeated, indexed, where(...)/first()/last()/extension(url) filters, choice, code, reference, Bundle entry / contained) x {add, insert, delete, replace, move} x values {right type (generated), sibling type, wrong type, nil} x indexes in [-1, len+1]; nil resource; sequences add-then-delete and replace-then-replace-back; each on a fresh clone; non-trivial = the operation succeeded and changed the resource; distinct by line"
+	runC18Histories(c)
 	types := resourceNames()
 	if !c.thorough {
 		pick := []string{"Patient", "Observation", "Encounter", "Bundle", "List", "Task", "DocumentReference", "Condition", "Claim", "MedicationRequest", "Questionnaire", "ValueSet", "CarePlan", "Appointment", "Organization", "Practitioner", "Location", "Procedure", "DiagnosticReport", "Immunization", "AllergyIntolerance", "Device", "Specimen", "Composition"}
@@ -1347,4 +1349,77 @@ var handWhere = map[string][]whereCase{
 	"OperationOutcome": {{"issue", "code", "not-found"}, {"issue", "code", "invalid"}, {"issue", "code", "multiple-matches"}, {"issue", "code", "multiple-matches_"}, {"issue", "severity", "warning"}, {"issue", "severity", "error"},
 		{"issue", "diagnostics", "d1"}},
 	"Patient": {{"telecom", "value", "222"}, {"telecom", "value", "999"}, {"address", "city", "Y"}},
+}
+
+
+// runC18Histories: sequences of operations in which an element put into the resource is patched afterwards and the
+// same value is supplied again — what the second operation substitutes is the value supplied, nothing that an earlier
+// operation (on this or on another resource) left behind; also the code 'invalid-uninitialized' is no code.
+func runC18Histories(c *Ctx) {
+	ext := func(u, v string) *dtpb.Extension {
+		return &dtpb.Extension{Url: &dtpb.Uri{Value: u}, Value: &dtpb.Extension_ValueX{Choice: &dtpb.Extension_ValueX_StringValue{StringValue: &dtpb.String{Value: v}}}}
+	}
+	js := func(r fhir.Resource) string { return canonJSONOf(r) }
+	step := func(what string, err error) bool {
+		c.Observe("history "+what, true)
+		if err != nil {
+			c.Law(false, "C18/history", "an operation with a right value on an existing element succeeds", what, err.Error())
+			return false
+		}
+		return true
+	}
+	for _, code := range []string{"female", "male", "other", "unknown"} {
+		other := "male"
+		if code == "male" {
+			other = "female"
+		}
+		p := mustResource(`{"resourceType":"Patient","id":"h1","gender":"` + other + `"}`)
+		q := mustResource(`{"resourceType":"Patient","id":"h2"}`)
+		ok := step("replace gender "+code, patch.Replace(p, "Patient.gender", &dtpb.Code{Value: code})) &&
+			step("add gender on the second resource", patch.Add(q, "Patient", "gender", &dtpb.Code{Value: code}, &patch.Options{}))
+		qBefore := js(q)
+		ok = ok && step("add extension inside gender", patch.Add(p, "Patient.gender", "extension", ext("http://x/e", "v"), &patch.Options{}))
+		c.Law(js(q) == qBefore, "C18/history", "patching inside an element of one resource leaves every other resource unchanged", "replace Patient.gender '"+code+"' on A; add it on B; add Patient.gender.extension on A", js(q)+" was "+qBefore)
+		ok = ok && step("replace gender "+other, patch.Replace(p, "Patient.gender", &dtpb.Code{Value: other})) &&
+			step("replace gender back "+code, patch.Replace(p, "Patient.gender", &dtpb.Code{Value: code}))
+		if ok {
+			want := `{"gender":"` + code + `","id":"h1","resourceType":"Patient"}`
+			c.Law(js(p) == want, "C18/history", "replace substitutes the value supplied: nothing an earlier operation left behind comes back", "replace '"+code+"', add extension inside it, replace '"+other+"', replace '"+code+"' again", js(p)+" want "+want)
+		}
+		// lists: a value added, patched, deleted and added again
+		r := mustResource(`{"resourceType":"Patient","id":"h3","name":[{"family":"A"}]}`)
+		ok = step("add name.use", patch.Add(r, "Patient.name[0]", "use", &dtpb.Code{Value: "official"}, &patch.Options{})) &&
+			step("add name.use.extension", patch.Add(r, "Patient.name[0].use", "extension", ext("http://x/e", "w"), &patch.Options{})) &&
+			step("delete name.use", patch.Delete(r, "Patient.name[0].use")) &&
+			step("add name.use again", patch.Add(r, "Patient.name[0]", "use", &dtpb.Code{Value: "official"}, &patch.Options{}))
+		if ok {
+			want := `{"id":"h3","name":[{"family":"A","use":"official"}],"resourceType":"Patient"}`
+			c.Law(js(r) == want, "C18/history", "add stores the value supplied: nothing an earlier operation left behind comes back", "add use 'official', add extension inside it, delete it, add 'official' again", js(r)+" want "+want)
+		}
+	}
+	// the protos' placeholder enum value is not a code of any value set
+	for _, v := range []string{"invalid-uninitialized", "INVALID_UNINITIALIZED", "invalid_uninitialized"} {
+		p := mustResource(`{"resourceType":"Patient","id":"h4","gender":"male"}`)
+		before := js(p)
+		err := patch.Replace(p, "Patient.gender", &dtpb.Code{Value: v})
+		c.Observe("placeholder code "+v, true)
+		c.Law(err != nil && js(p) == before, "C18/invalid-code-accepted", "an invalid code is an error and leaves the resource as it was", "replace Patient.gender with the code '"+v+"'", fmt.Sprint(err)+" "+js(p))
+		p2 := mustResource(`{"resourceType":"Patient","id":"h5"}`)
+		err = patch.Add(p2, "Patient", "gender", &dtpb.Code{Value: v}, &patch.Options{})
+		c.Law(err != nil && js(p2) == `{"id":"h5","resourceType":"Patient"}`, "C18/invalid-code-accepted", "an invalid code is an error and leaves the resource as it was", "add Patient.gender with the code '"+v+"'", fmt.Sprint(err)+" "+js(p2))
+	}
+}
+
+// canonJSONOf: the resource's FHIR JSON with object keys sorted
+func canonJSONOf(r fhir.Resource) string {
+	b, err := marshalJSON(r)
+	if err != nil {
+		return "unmarshalable: " + err.Error()
+	}
+	var v any
+	if json.Unmarshal(b, &v) != nil {
+		return string(b)
+	}
+	out, _ := json.Marshal(v)
+	return string(out)
 }
